@@ -80,6 +80,11 @@ pub struct Sim {
     pub trace: Vec<(u64, usize, usize, Kind, Vec<u8>)>,
     pub keep_trace: bool,
     client_eps: HashMap<usize, Endpoint>,
+    /// a member played by the harness: frames addressed to it are captured, not delivered
+    pub byz: Option<usize>,
+    pub byz_inbox: Vec<(u64, usize, Kind, Vec<u8>)>,
+    inject_eps: HashMap<(usize, u16), Endpoint>,
+    injections: Vec<(u64, usize, u16, Vec<u8>)>,
 }
 
 impl Sim {
@@ -119,6 +124,10 @@ impl Sim {
             trace: Vec::new(),
             keep_trace: false,
             client_eps: HashMap::new(),
+            byz: None,
+            byz_inbox: Vec::new(),
+            inject_eps: HashMap::new(),
+            injections: Vec::new(),
         }
     }
 
@@ -158,6 +167,19 @@ impl Sim {
                 }
             }
         }
+    }
+
+    /// Member `z` is played by the harness from now on: its real node is dropped, frames sent to
+    /// it are captured in `byz_inbox` (proposals are acknowledged), nothing is refused.
+    pub fn set_byzantine(&mut self, z: usize) {
+        self.nodes[z] = None;
+        self.byz = Some(z);
+        self.crashed.insert(z);
+    }
+
+    /// Harness-originated frame to `dst`'s port, arriving after `delay` ms.
+    pub fn inject(&mut self, dst: usize, port: u16, bytes: Vec<u8>, delay: u64) {
+        self.injections.push((self.now + delay, dst, port, bytes));
     }
 
     /// Sever (or heal) the link between a and b in both directions.
@@ -233,6 +255,15 @@ impl Sim {
                 if self.keep_trace {
                     self.trace.push((self.now, src, dst, kind, bytes.clone()));
                 }
+                if Some(dst) == self.byz {
+                    if kind == Kind::Consensus {
+                        if let Some(ConsensusMessage::Propose(_)) = decode_consensus(&bytes) {
+                            self.links[li].src_ep.write_frame(b"Ack");
+                        }
+                    }
+                    self.byz_inbox.push((self.now, src, kind, bytes));
+                    continue;
+                }
                 if self.cut.contains(&(src, dst)) || self.crashed.contains(&dst) || dst >= self.n() {
                     continue;
                 }
@@ -286,6 +317,24 @@ impl Sim {
                 }
             }
         }
+        // harness-originated frames
+        let due: Vec<(u64, usize, u16, Vec<u8>)> = self.injections.iter().filter(|x| x.0 <= self.now).cloned().collect();
+        let now = self.now;
+        self.injections.retain(|x| x.0 > now);
+        for (_, dst, port, bytes) in due {
+            if let Some(node) = &self.nodes[dst] {
+                simnet::enter(node.rt.ns);
+                let need = self.inject_eps.get(&(dst, port)).map_or(true, |e| e.closed_by_node());
+                if need {
+                    if let Some(ep) = simnet::dial(port) {
+                        self.inject_eps.insert((dst, port), ep);
+                    }
+                }
+                if let Some(ep) = self.inject_eps.get(&(dst, port)) {
+                    ep.write_frame(&bytes);
+                }
+            }
+        }
         // commits
         for i in 0..self.n() {
             if let Some(node) = self.nodes[i].as_mut() {
@@ -314,7 +363,13 @@ impl Sim {
     }
 
     pub fn next_due(&self) -> Option<u64> {
-        self.queue.peek().map(|Reverse(e)| e.at)
+        let a = self.queue.peek().map(|Reverse(e)| e.at);
+        let b = self.injections.iter().map(|x| x.0).min();
+        match (a, b) {
+            (Some(x), Some(y)) => Some(x.min(y)),
+            (x, None) => x,
+            (None, y) => y,
+        }
     }
 
     /// Run until `until` (virtual ms) with steps of at most `g` ms.
